@@ -52,7 +52,7 @@ private:
 
     ConstGenericSparseMatrix m_mat;
     const Index m_n;
-    Eigen::ConjugateGradient<SparseMatrix> m_cg;
+    Eigen::ConjugateGradient<SparseMatrix, Uplo> m_cg;
     mutable CompInfo m_info;
 
 public:
